@@ -70,6 +70,9 @@ func H_C08_skip() {
 		bodies[tn] = "v-" + tn
 		content += frame(tn+" - 1", bodies[tn])
 	}
+	// a stale entry of TestAB: a skip of TestA must not protect it (TestAB merely shares the prefix)
+	staleAB := frame("TestAB - 2", "stale-of-AB")
+	content += staleAB
 	writeFile(path, content)
 	// the test source that owns the file
 	vxrt.TestSources(vxrt.Dir()+"/f_test.go", "TestA", "TestAB", "TestC", "Test1")
@@ -206,6 +209,16 @@ func H_C08_skip() {
 
 	Clean(nil)
 	out := vxrt.Stdout()
+	if ran["TestAB"] && (mode == 0 || vxrt.Param("known_K4", 1) == 1) {
+		// TestAB ran and made one call: its second entry is stale whatever was skipped
+		_, _, err := getPrevSnapshot("[TestAB - 2]", path)
+		stillThere := err == nil
+		if mode == 0 {
+			vxrt.Reach("prefix-sibling-stale")
+			vxrt.Assert(!stillThere, "C08:skip-does-not-protect-prefix-sibling")
+			vxrt.Assert(strings.Contains(out, bulletSymbol+"TestAB - 2\n"), "C08:stale-entry-of-prefix-sibling-reported")
+		}
+	}
 	if k3 && mode == 1 && !ran["TestC"] {
 		vxrt.Assert(readFile(dir+"/TestC_1.snap") == "standalone-of-C", "C08:standalone-file-of-unselected-test-kept")
 		vxrt.Assert(readFile(dir+"/custom.snap") == frame("TestC - 1", "custom-of-C"), "C08:custom-named-file-of-unselected-test-kept")
